@@ -193,7 +193,7 @@ func runC12(raw json.RawMessage, w *Writer) {
 			for _, f := range frags {
 				decs = append(decs, vp9Decode(f))
 			}
-			w.Emit(Ev{"ev": "payload", "k": k, "mtu": c.Mtu, "flexible": c.Flexible, "startid": c.StartID, "key": !fr.Hdr.NonKey, "w": fr.Hdr.W, "h": fr.Hdr.H,
+			w.Emit(Ev{"ev": "payload", "k": k, "mtu": c.Mtu, "flexible": c.Flexible, "startid": c.StartID, "key": !fr.Hdr.NonKey, "existing": fr.Hdr.Existing, "w": fr.Hdr.W, "h": fr.Hdr.H,
 				"frame": ints(frame), "res": r, "frags": intss(frags), "decoded": decs})
 		}
 	}
